@@ -319,8 +319,10 @@ def check(ctx: Ctx, col: Collector, tier: str) -> None:
               "UnionType": ("sds.UnionType", [("types", "mypy_type.items")]),
               "CallableType": ("sds.CallableType", [("parameter_types", "mypy_type.arg_types"), ("return_type", "mypy_type.ret_type")]),
               "NoneType": ("sds.NamedType", []), "LiteralType": ("sds.LiteralType", [])}
+    # a plain tuple type falls back to builtins.tuple; an instance of a NamedTuple class is a tuple type whose fallback is the class (below)
+    plain_tuple = {repr(Sym("mypy_type.partial_fallback.type.fullname")): Const("builtins.tuple")}
     for cls, (want, children) in simple.items():
-        outs = run_v(cls)
+        outs = run_v(cls, plain_tuple if cls == "TupleType" else None)
         got = only_obj(outs)
         key = f"{vkey}::{cls}"
         probs = []
@@ -340,6 +342,37 @@ def check(ctx: Ctx, col: Collector, tier: str) -> None:
             col.bad("C05.CTOR-TABLE", key, repo.loc(VISITOR, vfi.node), "; ".join(probs[:2]), f"mypy {cls}: {probs[0]}")
         else:
             col.ok("C05.CTOR-TABLE", key, repo.loc(VISITOR, outs[0].node), f"{cls} -> {want} with translated children {[c for c, _ in children]}")
+    # NamedTuple classes: mypy represents `p: Point` (class Point(NamedTuple)) as TupleType(items of the fields, partial_fallback=Instance(Point))
+    outs = run_v("TupleType", {repr(Sym("mypy_type.partial_fallback.type.fullname")): Const("pkg.mod.Point"), repr(Sym("mypy_type.partial_fallback.type.name")): Const("Point")})
+    key = f"{vkey}::TupleType::named-tuple-class"
+    named = [o for o in outs if o.kind == "return" and isinstance(o.value, Obj) and o.value.cls == "sds.NamedType" and o.value.get("name") == Const("Point") and o.value.get("qname") == Const("pkg.mod.Point")]
+    if outs and len(named) == len(outs):
+        col.ok("C05.CTOR-TABLE", key, repo.loc(VISITOR, vfi.node), "a tuple type whose fallback is a class of its own is named after the class")
+    else:
+        col.bad("C05.CTOR-TABLE", key, repo.loc(VISITOR, vfi.node), f"{sorted(only_obj(outs))}",
+                "an instance of a NamedTuple class is expanded to its fields: `class Point(NamedTuple): x: int; y: int` used as `by: Point` is emitted as `Tuple<Int, Int>` in every position, and "
+                "`def move(self) -> Point` gets two results (result_1: Int, result_2: Int) instead of the class name - the fallback class of mypy's TupleType is ignored")
+    # `Callable[..., X]` / bare `Callable`: mypy fills in (*args: Any, **kwargs: Any) and sets is_ellipsis_args; the two Any are no parameters
+    eouts = run_v("CallableType", {repr(Sym("mypy_type.is_ellipsis_args")): Const(True)})
+    key = f"{vkey}::CallableType::ellipsis-parameters"
+    copies = [o for o in eouts if o.kind == "return" and isinstance(o.value, Obj) and o.value.cls == "sds.CallableType" and rec_over(o.value.get("parameter_types") or Const(0), REC_V, "mypy_type.arg_types")]
+    reads = any("is_ellipsis_args" in k or "arg_kinds" in k for o in eouts for k, _ in o.facts)
+    if copies and not reads:
+        col.bad("C05.CTOR-TABLE", key, repo.loc(VISITOR, vfi.node), "parameter_types is the element-wise image of arg_types; is_ellipsis_args / arg_kinds are never read",
+                "`Callable[..., int]` and bare `Callable` are emitted as `(param_1: Any, param_2: Any) -> ...`, the image of `Callable[[Any, Any], int]`: mypy models the ellipsis as "
+                "(*args: Any, **kwargs: Any) with is_ellipsis_args set, and the translator copies arg_types without looking at the flag or the argument kinds")
+    else:
+        col.ok("C05.CTOR-TABLE", key, repo.loc(VISITOR, vfi.node), "the parameter list of a callable type depends on is_ellipsis_args / arg_kinds")
+    # `tuple[X, ...]`: mypy keeps fixed-length tuples as TupleType; an Instance of builtins.tuple is always the variable-length form (one argument)
+    touts = run_v("Instance", {repr(Sym("mypy_type.type.name")): Const("tuple"), repr(Sym("mypy_type.type.fullname")): Const("builtins.tuple")})
+    key = f"{vkey}::Instance:tuple::variable-length"
+    fixed = [o for o in touts if o.kind == "return" and isinstance(o.value, Obj) and o.value.cls == "sds.TupleType" and rec_over(o.value.get("types") or Const(0), REC_V, "mypy_type.args")]
+    if fixed:
+        col.bad("C05.CTOR-TABLE", key, repo.loc(VISITOR, vfi.node), "Instance(builtins.tuple, [X]) -> TupleType(types=[X'])",
+                "`tuple[int, ...]` (any length) is emitted as `Tuple<Int>`, the image of the 1-tuple `tuple[int]`, and as a result annotation it becomes the single result `result_1: Int`: "
+                "an Instance of builtins.tuple is always mypy's variable-length form, but its one argument is taken for the element list of a fixed tuple")
+    else:
+        col.ok("C05.CTOR-TABLE", key, repo.loc(VISITOR, vfi.node), "a variable-length tuple is not given the image of a fixed tuple")
     # TypeVarType
     outs = run_v("TypeVarType")
     got = only_obj(outs)
